@@ -5,6 +5,7 @@ pub mod c06;
 pub mod c09;
 pub mod c10;
 pub mod c12;
+pub mod c13;
 pub mod c14;
 pub mod c16;
 
@@ -21,6 +22,7 @@ pub fn run(cfg: RunCfg, verif_dir: &str) -> i32 {
         "C09" => c09::run(&mut run),
         "C10" => c10::run(&mut run),
         "C12" => c12::run(&mut run),
+        "C13" => c13::run(&mut run),
         "C14" => c14::run(&mut run),
         "C16" => c16::run(&mut run),
         _ => {
@@ -39,6 +41,7 @@ pub fn replay(id: &str, suite: &str, path: &str) -> Result<(), String> {
         "C09" => c09::replay(suite, path),
         "C10" => c10::replay(suite, path),
         "C12" => c12::replay(suite, path),
+        "C13" => c13::replay(suite, path),
         "C14" => c14::replay(suite, path),
         "C16" => c16::replay(suite, path),
         _ => Err(format!("unknown property {id}")),
